@@ -66,6 +66,7 @@ TRANSLATORS = [
     ('translate_vde.py', 'VdeTables', 'vde', 'Proofs/VdeSrc.v'),
     ('translate_de.py', 'DeTables', 'de', 'Proofs/DeSrc.v'),
     ('translate_read.py', 'ReadTables', 'read', 'Proofs/ReadSrc.v'),
+    ('translate_esc.py', 'EscTables', 'esc', 'Proofs/EscSrc.v'),
 ]
 TRANSLATORS = [t for t in TRANSLATORS if os.path.exists(os.path.join(VERIF, 'tools', t[0]))]
 
